@@ -44,6 +44,8 @@ impl InlineParser {
         let mut ok = None;
 
         if let Some(x) = state.cache.get(&pos) {
+            #[cfg(mdit_verif)]
+            crate::verif_hooks::memo_hit(*x, state.pos_max);
             state.pos = *x;
             return;
         }
